@@ -181,6 +181,8 @@ def sequences(B):
         ('PROC+imm+DATA+FUNC+opr', lambda: [B.proc('p'), B.imm('LDAC', 5), B.data(), B.func('g'), B.opr('ADD')]),
         ('imm5+PROC+imm+FUNC', lambda: [B.imm('LDAC', 70000), B.proc('p'), B.imm('LDBM', 300), B.func('g')]),
         ('DATA+imm+label+DATA', lambda: [B.data(), B.imm('LDAC', 1), B.label('x'), B.data()]),
+        ('imm+FUNC+DATA', lambda: [B.imm('LDAC', 1), B.func('tab'), B.data()]),
+        ('imm+PROC+label+DATA', lambda: [B.imm('LDAC', 1), B.proc('tab'), B.label('y'), B.data()]),
     ]
 
 
@@ -252,7 +254,11 @@ def rule_layout_emission(rep, idx):
                     so = sv[2] if isinstance(sv, tuple) and len(sv) > 2 else None
                     sa = aff_add(so.aff, ({'E': 1}, 0), -1) if isinstance(so, IV) and so.aff else None
                     lo_ = lay[items.index(d)]
-                    # the symbol must equal the layout offset of the first byte after the directive
+                    # the symbol must equal the layout offset of the directive: either counted by the emitter (start E + constant) or
+                    # taken from the layout itself (the label's value / the directive's byte offset, start P + constant)
+                    sp_ = aff_add(so.aff, ({'P': 1}, 0), -1) if isinstance(so, IV) and so.aff else None
+                    if sp_ is not None and not sp_[0] and sp_[1] == lo_:
+                        continue
                     if sa is None or sa[0] or sa[1] != lo_:
                         problems.append('symbol %s recorded at +%s, layout offset +%s' % (d.name, aff_str(sa) if sa else '?', lo_))
                     if isinstance(sv, tuple) and sv[1] != d.fields.get('label'):
@@ -266,9 +272,9 @@ def rule_layout_emission(rep, idx):
                         ok = (r + lay[i]) % 4 == 0
                         rep.add('R4', '%s#%d:DATA-aligned:start%%4=%d' % (name, i, r), ok, where_l,
                                 'DATA at start+%d with start%%4=%d' % (lay[i], r))
-                    if d.cls == 'hexasm::Label' and i + 1 < len(items):
+                    if idx.derives_from(d.cls, 'hexasm::Label') and i + 1 < len(items):
                         j = i + 1
-                        while j < len(items) and items[j].cls == 'hexasm::Label':
+                        while j < len(items) and idx.derives_from(items[j].cls, 'hexasm::Label'):
                             j += 1
                         if j < len(items) and _is_data(items[j]):
                             lv = d.fields['labelValue']
